@@ -68,10 +68,20 @@ make_geo(const Plan& p, int g)
     case 3: // other projection data
       ndet += 4;
       break;
+    case 5: // another scanner with the SAME index ranges: larger ring (handled below)
+      break;
     default: // more planes / fewer planes
       zdelta += 2;
     }
   G.scanner = vu::make_scanner(ndet, nrings, tof ? 3 : 0);
+  if (g == 5)
+    {
+      // the same scanner turned by 0.2 rad (intrinsic tilt): identical index ranges and sizes, other LORs
+      const float radius = 1.25f * ndet;
+      G.scanner.reset(new Scanner(Scanner::User_defined_scanner, std::string("SimScanner"), ndet, nrings, ndet / 2 + 1, ndet / 2 + 1, radius, 3.f, 4.f,
+                                  radius * 3.14159265f / ndet, /*tilt*/ 0.2f, 1, 1, 1, 1, 1, 1, 1, 0.15f, 511.f, (short)(tof ? 3 : -1),
+                                  tof ? 400.f : -1.f, tof ? 500.f : -1.f));
+    }
   while (span > 1 && span > 2 * nrings - 1)
     span -= 2;
   int views = ndet / 2;
@@ -433,7 +443,7 @@ run_seq(const Plan& p, sim::Result& res)
       else if (op.kind == "resetup")
         {
           // set the same object up for another geometry / image grid (and, later, back)
-          cur_geo = cur_geo == 0 ? 1 + (int)(op.arg(0) % 4) : 0;
+          cur_geo = cur_geo == 0 ? 1 + (int)(op.arg(0) % 5) : 0;
           G = make_geo(p, cur_geo);
           H->set_up(G.pdi, G.image);
           for (auto& hb : hot)
